@@ -45,6 +45,7 @@ import Driver.AbsMeta
 import Driver.Chmap
 import Driver.Probe
 import Driver.VocBlocks
+import Driver.Label
 import Driver.ShortIo
 open Sf
 
@@ -136,5 +137,6 @@ def main (args : List String) : IO UInt32 := do
   | "chmap" :: rest => ChmapDriver.main rest
   | "probe" :: rest => ProbeDriver.main rest
   | "vocblocks" :: rest => VocBlocksDriver.main rest
+  | "label" :: rest => LabelDriver.main rest
   | "shortio" :: rest => ShortIoDriver.main rest
   | _ => IO.eprintln "usage: sfmodel <g711|...> ..."; return 2
